@@ -226,6 +226,15 @@ type syncState struct {
 	// database file and rely on it not being ahead of the synced position,
 	// so they are refused until the flag is cleared.
 	dbAheadOfSync bool
+
+	// walUncopiedSinceInit is set when init() starts the long-running read
+	// transaction and cleared by the first WAL copy that runs to the end of
+	// the WAL. Until then the read transaction covers frames that have not
+	// been copied yet (written while litestream was not running), and a
+	// checkpoint issued by the application may move exactly those frames
+	// into the database file. Snapshots, which rely on the database file not
+	// being ahead of the synced position, are refused meanwhile.
+	walUncopiedSinceInit bool
 }
 
 type syncExecutor struct {
@@ -1152,6 +1161,7 @@ func (db *DB) init(ctx context.Context) (err error) {
 	if err := db.acquireReadLock(ctx); err != nil {
 		return fmt.Errorf("acquire read lock: %w", err)
 	}
+	db.syncState.walUncopiedSinceInit = true
 
 	// Read page size.
 	if err := db.db.QueryRowContext(ctx, `PRAGMA page_size;`).Scan(&db.pageSize); err != nil {
@@ -1455,6 +1465,12 @@ func (db *DB) verifyAndSyncWithExecutor(ctx context.Context, checkpointing bool,
 	// be behind the database file.
 	if info.snapshotting && result.synced {
 		exec.state.dbAheadOfSync = false
+	}
+
+	// The copy ran to the end of the WAL (it was not cut short by the byte
+	// budget): every frame the read transaction covers has been copied.
+	if !result.limited {
+		exec.state.walUncopiedSinceInit = false
 	}
 
 	result.origWALSize = origWALSize
@@ -2929,6 +2945,9 @@ func (db *DB) snapshotPosition(ctx context.Context) (*snapshotReadPosition, erro
 	// while holding execSem, which is held here.
 	if db.syncState.dbAheadOfSync {
 		return nil, &DBNotReadyError{Reason: "database file is ahead of the synced position"}
+	}
+	if db.syncState.walUncopiedSinceInit {
+		return nil, &DBNotReadyError{Reason: "wal not copied since the database was opened"}
 	}
 
 	walEndOffset, err := db.snapshotWALEndOffset(pos)
